@@ -186,6 +186,8 @@ def gen(rng, ct, depth, w, h, il, cls, key_mode="none", ncolors=None):
             px[c] = (px[c] + rng.choice([1, 255])) & 0xff
         pixels[y][x] = tuple(px)
     extra = None
+    if cls == "bitrep" and ct == 0 and depth == 8 and key_mode in ("unused", "used") and rng.random() < 0.5:
+        key_mode = "nearrep"
     if ct in (0, 2) and key_mode != "none":
         flat = [px for row in pixels for px in row]
         if key_mode == "used":
@@ -194,6 +196,18 @@ def gen(rng, ct, depth, w, h, il, cls, key_mode="none", ncolors=None):
             k = tuple(rng.randrange(mx + 1) for _ in range(pg.CHANNELS[ct]))
         elif key_mode == "highbits" and depth < 16:
             k = tuple(v | (rng.randrange(1, 1 << (16 - depth)) << depth) for v in rng.choice(flat))
+        elif key_mode == "nearrep" and depth == 8:
+            # a key that no replicated low-depth sample equals although its leading bits repeat at its end (0x41, 0x9a, 0x81, ...):
+            # a depth reduction must drop it, not turn it into a live key
+            def nr():
+                n = rng.choice([1, 2])
+                pat = rng.randrange(1 << n)
+                rep_ = sum(pat << s for s in range(0, 8, n))
+                while True:
+                    v = (pat << (8 - n)) | pat | (rng.randrange(256) & (((1 << (8 - 2 * n)) - 1) << n))
+                    if v != rep_:
+                        return v
+            k = tuple(nr() for _ in range(pg.CHANNELS[ct]))
         elif key_mode == "hilo16" and depth == 16:
             k = tuple(rng.randrange(256) * 257 for _ in range(pg.CHANNELS[ct]))
         elif key_mode == "nonhilo16" and depth == 16:
@@ -205,5 +219,5 @@ def gen(rng, ct, depth, w, h, il, cls, key_mode="none", ncolors=None):
     return pg.img_token(w, h, ct, depth, il, extra, data), {"cls": cls, "key": key_mode}
 
 
-KEY_MODES = ["none", "none", "used", "unused", "hilo16", "nonhilo16"]
+KEY_MODES = ["none", "none", "used", "unused", "hilo16", "nonhilo16", "nearrep"]
 # "highbits" (non-zero bits above the sample depth in tRNS) is not a well-formed PNG; it is used only by the robustness check (C05)
